@@ -125,6 +125,27 @@ M = [
   "        let treasury: Currency = Currency::from_be_bytes(bytes[189..197].try_into().unwrap());\n        let graveyard: Currency = Currency::from_be_bytes(bytes[181..189].try_into().unwrap());"),
  ("C20-eq-configs-guard-dropped-early", C + "io/network.rs",
   "        drop(blockchain);\n        drop(configs);", "        drop(configs);\n        drop(blockchain);\n        tokio::task::yield_now().await;"),
+ # ---------------- round 3
+ ("C13-eq-count-by-filter", C + "consensus/block.rs",
+  "                    for slip in transaction.to.iter() {\n                        if matches!(slip.slip_type, SlipType::ATR) {\n                            self.total_rebroadcast_slips += 1;\n                            // deprecated\n                            //self.total_rebroadcast_nolan += slip.amount;\n                        }\n                    }\n",
+  "                    self.total_rebroadcast_slips += transaction\n                        .to\n                        .iter()\n                        .filter(|slip| slip.slip_type == SlipType::ATR)\n                        .count() as u64;\n"),
+ ("C13-count-all-outputs", C + "consensus/block.rs",
+  "                        if matches!(slip.slip_type, SlipType::ATR) {\n                            self.total_rebroadcast_slips += 1;", "                        if !matches!(slip.slip_type, SlipType::Bound) {\n                            self.total_rebroadcast_slips += 1;"),
+ ("C04-eq-marker-by-position", C + "consensus/ringitem.rs",
+  "                if self.lc_pos == Some(i) {\n                    new_lc_pos = Some(index_loop);\n                }", "                if let Some(old_pos) = self.lc_pos {\n                    if old_pos == i {\n                        new_lc_pos = Some(index_loop);\n                    }\n                }"),
+ ("C04-marker-defaults-to-first", C + "consensus/ringitem.rs",
+  "        let mut new_lc_pos = None;", "        let mut new_lc_pos = if self.block_ids.len() > 1 { Some(0) } else { None };"),
+ ("C17-eq-remove-then-key", C + "io/network.rs",
+  "        if let Some(peer) = peers.index_to_peers.remove(&peer_index) {\n            if let Some(public_key) = peer.get_public_key() {", "        let removed = peers.index_to_peers.remove(&peer_index);\n        if let Some(peer) = removed {\n            if let Some(public_key) = peer.get_public_key() {"),
+ ("C17-stun-remove-keeps-key", C + "io/network.rs",
+  "                peer_public_key = public_key;\n                peers.address_to_peers.remove(&public_key);", "                peer_public_key = public_key;"),
+ ("C05-eq-density-verdict-in-local", C + "consensus/blockchain.rs",
+  "        if !self.is_golden_ticket_count_valid(\n            previous_block_hash,\n            has_gt,\n            configs.is_browser(),\n            configs.is_spv_mode(),\n        ) {", "        let density_ok = self.is_golden_ticket_count_valid(\n            previous_block_hash,\n            has_gt,\n            configs.is_browser(),\n            configs.is_spv_mode(),\n        );\n        if density_ok == false {"),
+ ("C03-eq-flag-set-by-caller", C + "consensus/blockchain.rs",
+  "                let block = self.blocks.get_mut(block_hash).unwrap();\n                block.on_chain_reorganization(&mut self.utxoset, true);", "                let block = self.blocks.get_mut(block_hash).unwrap();\n                block.on_chain_reorganization(&mut self.utxoset, true);\n                block.in_longest_chain = true;"),
+ ("C11-eq-guards-merged-with-or", C + "consensus/transaction.rs",
+  "                if self.from.len() < 3 {\n                    error!(\n                        \"Send bound transaction Invalid: fewer than 3 inputs, found {}.\",\n                        self.from.len()\n                    );\n                    return false;\n                }\n                //\n                // at least 3 output slips\n                //\n                if self.to.len() < 3 {\n                    error!(\n                        \"Send-bound transaction Invalid: fewer than 3 outputs, found {}.\",\n                        self.to.len()\n                    );\n                    return false;\n                }\n",
+  "                let enough_slips = self.from.len() >= 3 && self.to.len() >= 3;\n                if !enough_slips {\n                    error!(\n                        \"Send bound transaction Invalid: fewer than 3 inputs or outputs, found {} / {}.\",\n                        self.from.len(),\n                        self.to.len()\n                    );\n                    return false;\n                }\n"),
 ]
 
 def main():
